@@ -17,6 +17,10 @@ pub enum RStep {
     End(i64),
     Pos,
     ReadToEnd,
+    /// read_exact of n bytes (n equal to what is left is the edge): Ok-ness and bytes like the Cursor's; after a
+    /// failed one both are re-positioned (where a failed read_exact leaves the position is unspecified)
+    #[serde(alias = "ReadExact")]
+    ReadExact(usize),
 }
 
 #[derive(Debug, Clone, Serialize, Deserialize)]
@@ -98,6 +102,20 @@ pub fn check_read(case: &ReadCase) -> CaseResult {
                             }
                         }
                         (r1, if failed { Err(()) } else { Ok((got as u64, b2[..got].to_vec())) })
+                    },
+                    RStep::ReadExact(n) => {
+                        what = "read_exact";
+                        let before = cur.position();
+                        let mut b1 = vec![0u8; *n];
+                        let mut b2 = vec![0u8; *n];
+                        let r1 = cur.read_exact(&mut b1).map(|_| (*n as u64, b1)).map_err(|_| ());
+                        let r2 = h.read_exact(&mut b2).map(|_| (*n as u64, b2)).map_err(|_| ());
+                        if r1.is_err() || r2.is_err() {
+                            let back = before.min(FILE_POS_LIMIT);
+                            let _ = cur.seek(SeekFrom::Start(back));
+                            let _ = h.seek(SeekFrom::Start(back));
+                        }
+                        (r1, r2)
                     },
                     RStep::ReadToEnd => {
                         what = "read_to_end";
@@ -205,6 +223,7 @@ pub fn check_write(case: &WriteCase) -> CaseResult {
             } else {
                 spelled
             };
+            let unwind_drop = (case.prelude / 32) % 2 == 1;
             let opened = if case.append { v.append(&spelled) } else { v.write(&spelled) };
             if rel_then_chdir {
                 let _ = v.set_cwd("/");
@@ -233,7 +252,16 @@ pub fn check_write(case: &WriteCase) -> CaseResult {
                     }
                 }
             }
-            drop(h);
+            if unwind_drop {
+                // the handle goes out of scope while its thread unwinds from a panic ("dropping the handle at any
+                // point persists exactly the bytes written through it")
+                let _ = crate::engine::catch(move || {
+                    let _held = h;
+                    panic!("rvh: unwinding with a handle in scope");
+                });
+            } else {
+                drop(h);
+            }
             for (p, before) in &bystanders {
                 if v.read_all(p).ok() != *before {
                     return Err(Failure::new(
@@ -267,6 +295,7 @@ fn rstep(len_hint: usize) -> impl Strategy<Value = RStep> {
         3 => prop_oneof![-12i64..6, Just(i64::MAX), Just(i64::MIN), Just(-l), Just(-l - 1), Just(0)].prop_map(RStep::End),
         1 => Just(RStep::Pos),
         1 => Just(RStep::ReadToEnd),
+        2 => prop_oneof![0usize..8, Just(l.max(0) as usize), Just((l.max(1) - 1) as usize), Just(l as usize + 1)].prop_map(RStep::ReadExact),
     ]
 }
 
@@ -289,7 +318,7 @@ fn write_case(stdfs: bool) -> impl Strategy<Value = WriteCase> {
         prop::collection::vec(prop_oneof![12 => prop::collection::vec(any::<u8>(), 0..24), 1 => (65_000usize..70_000).prop_map(|n| (0..n).map(|i| (i % 253) as u8).collect::<Vec<u8>>())], 0..6),
         prop::collection::vec(any::<bool>(), 6),
         0usize..7,
-        0u8..32,
+        0u8..64,
     )
         .prop_map(move |(append, existing, chunks, flush, d, prelude)| {
             let drop_after = d.min(chunks.len());
